@@ -275,7 +275,7 @@ def r1(rep, prog):
                 roots[nm] = list(common)[0]
         vals = set(roots.values())
         names = mb.var_names()
-        one = len(vals) == 1 and len(roots) == 4 and list(vals)[0][0] == "local" and names.get(list(vals)[0][1]) == "doc_id_mapping"
+        one = len(vals) == 1 and len(roots) == 4 and list(vals)[0][0] == "local"      # (whatever the variable is called)
         rep.check(one, R, "the four merge writers receive the same doc_id_mapping", "%s" % roots,
                   "IndexMerger::write does not hand one and the same mapping to fieldnorms, postings, store and fast fields (%s): the merged structures disagree on document ids" % roots, site=mb.span)
         # the mapping is computed once (single definition per path)
